@@ -38,14 +38,17 @@ from phyclone.utils.utils import NumpyArrayListHasher, NumpyTwoArraysHasher, lis
 from ..common import KERNELS, DataSet, build_tree, extract, fr, gen_dataset, gen_values, make_tree_dist, random_canon_tree
 
 ID = "C14"
-LEVEL = "other"
+LEVEL = "proof"
 EXPLANATION = (
     "Proved on the model for all histories: cache_sound (LRU table with capacity, clears, changing environment), the key "
     "premises of the two numeric caches (logS_respects_key via order-insensitivity of the children recursion, "
-    "conv_respects_key via commutativity) and their instances logS_memo_sound / conv_memo_sound. The key-completeness of the "
-    "proposal caches (proposal_key_complete) is only proved at table level (proposal_key_complete_partial): the proposal "
-    "model (Model/Proposal.lean) is not part of this slice, so for the three proposal caches the evidence is the shadow "
-    "comparison on the real code (every call, 1e-12) plus the hit/miss correspondence with the model table on interned keys."
+    "conv_respects_key via commutativity) and their instances logS_memo_sound / conv_memo_sound; the key-completeness of the "
+    "proposal caches on the proposal model Model/Proposal.lean (proposal_key_complete: the proposal table of all three "
+    "proposals is a function of (data point, kind, outlier proposal probability, perm setting, first, parent tree, alpha) "
+    "and the new-clone tree with its cached densities of (parent, data point, children, alpha, perm setting), for a fixed "
+    "data set) and the instances proposal_memo_sound / new_tree_memo_sound for every history of calls, clears and alpha "
+    "changes at every capacity; concrete examples show that a key without alpha returns a stale table. The real code is tied "
+    "to this by the shadow comparison (every call, 1e-12) and the hit/miss correspondence with the model table."
 )
 THEOREMS = [
     "cache_sound",
@@ -57,7 +60,10 @@ THEOREMS = [
     "conv_memo_sound",
     "logS_eq_prefixSum_D",
     "trace_values",
-    "proposal_key_complete_partial",
+    "env_key_sound",
+    "proposal_key_complete",
+    "proposal_memo_sound",
+    "new_tree_memo_sound",
 ]
 BUDGET = {"quick": 150, "thorough": 900}
 SEARCH_BUDGET = 60
